@@ -51,35 +51,43 @@ theorem C13_struct_preserved (v : Ver) (m : TargetsMeta) (op : TOp) (h : MetaStr
     MetaStruct (m.apply v op).st :=
   apply_gen qok_struct v m op h (argsOK_struct m op)
 
-/-- The full invariant (thresholds can be met by the distinct listed principals) is kept by every
-mutator provided AddRule/UpdateRule are not handed a principal list with repetitions.
-(Without that proviso the statement is false for the code as it stands: `C13_F10_witness`.) -/
-theorem C13_inv_preserved_partial (v : Ver) (m : TargetsMeta) (op : TOp) (h : MetaInv m) (hnd : op.NoDupArgs) :
+/-- The property as stated. For ARBITRARY arguments (invalid names, undefined or REPEATED principal
+ids, any threshold, any principal type, both schema versions) every rule-file mutator keeps the full
+invariant: allow rule last and only there, no user rule with the reserved prefix, every threshold at
+least one and at most the number of DISTINCT principals the rule lists, every listed principal
+defined. (Before commit 43f8e67 this needed the proviso "no repeated ids in the argument list":
+finding F10, repaired.) -/
+theorem C13_inv_preserved (v : Ver) (m : TargetsMeta) (op : TOp) (h : MetaInv m) :
     MetaInv (m.apply v op).st :=
-  apply_gen qok_ok v m op h (argsOK_ok m op hnd)
+  apply_gen qok_ok v m op h (argsOK_ok m op)
 
-/-- The property as stated: every mutator keeps the full invariant for arbitrary arguments. -/
-def C13_inv_preserved_full : Prop :=
-  ∀ (v : Ver) (m : TargetsMeta) (op : TOp), MetaInv m → MetaInv (m.apply v op).st
+/-- The same statement in closed form (it used to be a `def … : Prop` that `C13_F10_witness` refuted). -/
+theorem C13_inv_preserved_full :
+    ∀ (v : Ver) (m : TargetsMeta) (op : TOp), MetaInv m → MetaInv (m.apply v op).st :=
+  fun v m op h => C13_inv_preserved v m op h
 
 /-- a rule file with one key principal `k` and no user rule -/
 def f10Start : TargetsMeta :=
   { principalsNil := false, principals := [{ id := "k", kind := .key, keys := [] }], rules := [allowRule] }
 
-/-- F10: `AddRule("r", ["k","k"], _, 2)` is accepted and yields a rule with one distinct
-principal and threshold 2 — the full statement does not hold. -/
-theorem C13_F10_witness : ¬ C13_inv_preserved_full := by
-  intro h
-  have h0 : MetaInv f10Start := (C13_metaInvB_iff _).1 (by decide)
-  have h1 := h .v02 f10Start (.addRule "r" ["k", "k"] ["git:refs/heads/main"] 2) h0
-  have h2 := (C13_metaInvB_iff _).2 h1
-  revert h2
-  decide
+/-- The old F10 witness, on the repaired code: `AddRule("r", ["k","k"], _, 2)` with one defined
+principal is REFUSED with `ErrCannotMeetThreshold` and the metadata is left as it was (both schema
+versions). -/
+theorem C13_F10_repaired :
+    ∀ v : Ver,
+      (f10Start.apply v (.addRule "r" ["k", "k"] ["git:refs/heads/main"] 2)).err = some .cannotMeetThreshold ∧
+      (f10Start.apply v (.addRule "r" ["k", "k"] ["git:refs/heads/main"] 2)).st = f10Start := by
+  intro v; cases v <;> decide
 
-/-- The same through UpdateRule. -/
-theorem C13_F10_witness_update :
-    metaInvB (((f10Start.apply .v02 (.addRule "r" ["k"] ["p"] 1)).st.apply .v02 (.updateRule "r" ["k", "k", "k"] ["p"] 3)).st) = false := by
-  decide
+/-- The same through UpdateRule: after `AddRule("r", ["k"], _, 1)`, `UpdateRule("r", ["k","k","k"], _, 3)`
+is refused with `ErrCannotMeetThreshold`, the rule file is unchanged and still well formed. -/
+theorem C13_F10_repaired_update :
+    ∀ v : Ver,
+      let m := (f10Start.apply v (.addRule "r" ["k"] ["p"] 1)).st
+      (m.apply v (.updateRule "r" ["k", "k", "k"] ["p"] 3)).err = some .cannotMeetThreshold ∧
+      (m.apply v (.updateRule "r" ["k", "k", "k"] ["p"] 3)).st = m ∧
+      metaInvB (m.apply v (.updateRule "r" ["k", "k", "k"] ["p"] 3)).st = true := by
+  intro v; cases v <;> decide
 
 /-- A refused edit leaves everything any query can see (rules, principals) unchanged. -/
 theorem C13_refused_unchanged (v : Ver) (m : TargetsMeta) (op : TOp) (e : Err) :
@@ -171,14 +179,18 @@ theorem C13_run_struct (v : Ver) (ops : List TOp) : ∀ (m : TargetsMeta), MetaS
 theorem C13_run_struct_from_new (v : Ver) (ops : List TOp) : MetaStruct (TargetsMeta.new.run v ops) :=
   C13_run_struct v ops _ ⟨[], rfl, by simp⟩
 
-/-- Lifted to sequences: the full invariant, for sequences whose rule edits carry no repeated principal ids. -/
-theorem C13_run_inv_partial (v : Ver) (ops : List TOp) :
-    ∀ (m : TargetsMeta), MetaInv m → (∀ op ∈ ops, op.NoDupArgs) → MetaInv (m.run v ops) := by
+/-- Lifted to sequences: the full invariant holds after ANY finite sequence of edits (accepted or
+refused, arbitrary arguments) from any well-formed rule file. -/
+theorem C13_run_inv (v : Ver) (ops : List TOp) : ∀ (m : TargetsMeta), MetaInv m → MetaInv (m.run v ops) := by
   induction ops with
-  | nil => intro m h _; exact h
+  | nil => intro m h; exact h
   | cons op ops ih =>
-    intro m h hnd
-    exact ih _ (C13_inv_preserved_partial v m op h (hnd op (by simp))) (fun o ho => hnd o (by simp [ho]))
+    intro m h
+    exact ih _ (C13_inv_preserved v m op h)
+
+/-- Any sequence of edits starting from new metadata yields a well-formed rule file. -/
+theorem C13_run_inv_from_new (v : Ver) (ops : List TOp) : MetaInv (TargetsMeta.new.run v ops) :=
+  C13_run_inv v ops _ C13_new_wellformed.1
 
 /-- Root metadata: for ARBITRARY arguments every mutator of the roles and global rules keeps each
 role's threshold between one and the number of its distinct principals, every role principal
@@ -245,6 +257,11 @@ example : MetaInv ((f10Start.apply .v02 (.addPrincipal (some { id := "p", kind :
 /-- … the edit was accepted and did add the rule before the allow rule. -/
 example : ((f10Start.apply .v02 (.addPrincipal (some { id := "p", kind := .person, keys := ["k"] }))).st.apply .v02
     (.addRule "r" ["k", "p"] ["git:refs/heads/main"] 2)).st.rules.map (·.name) = ["r", allowName] := by decide
+
+/-- repeated ids are not refused as such: `["k","p","k"]` with threshold 2 is accepted and stores the set {k,p} -/
+example : ((f10Start.apply .v02 (.addPrincipal (some { id := "p", kind := .person, keys := ["k"] }))).st.apply .v02
+    (.addRule "r" ["k", "p", "k"] ["git:refs/heads/main"] 2)).st.rules.map (fun r => (r.principals, r.threshold))
+      = [(["p", "k"], 2), ([], 1)] := by decide
 
 /-- refused edits exist (reserved name), and they are refused with the state unchanged -/
 example : (f10Start.apply .v02 (.addRule "gittuf-x" ["k"] ["p"] 1)).err = some .reservedPrefix ∧
